@@ -137,11 +137,11 @@ def harness_hash():
     return sha_files(repo_sources() + walk(HARNESS, (".cpp", ".hpp")))
 
 
-def harness_build():
-    """Returns (path or None, log)."""
+def harness_build(hooks=False):
+    """Returns (path or None, log).  hooks=True: built with -DCAPPUCCINO_VERIF_HOOKS (structural tier)."""
     os.makedirs(CACHE, exist_ok=True)
     hh = harness_hash()
-    d = os.path.join(CACHE, "h-" + hh)
+    d = os.path.join(CACHE, ("hs-" if hooks else "h-") + hh)
     exe = os.path.join(d, "harness")
     if os.path.exists(exe):
         os.utime(d)
@@ -151,10 +151,11 @@ def harness_build():
     os.makedirs(tmp)
     inc = os.path.join(REPO, "inc")
     jobs = []
+    flags = SEQ_FLAGS + (["-D" + GUARD] if hooks else [])
     for k in gen.KINDS:
-        jobs.append(["g++"] + SEQ_FLAGS + ["-I" + inc, "-I" + HARNESS, "-DHK=" + k, "-DHK_" + k, "-c",
+        jobs.append(["g++"] + flags + ["-I" + inc, "-I" + HARNESS, "-DHK=" + k, "-DHK_" + k, "-c",
                                           os.path.join(HARNESS, "kind.cpp"), "-o", os.path.join(tmp, k + ".o")])
-    jobs.append(["g++"] + SEQ_FLAGS + ["-I" + inc, "-I" + HARNESS, "-c", os.path.join(HARNESS, "main.cpp"), "-o",
+    jobs.append(["g++"] + flags + ["-I" + inc, "-I" + HARNESS, "-c", os.path.join(HARNESS, "main.cpp"), "-o",
                                       os.path.join(tmp, "main.o")])
     log = []
     with cf.ThreadPoolExecutor(max_workers=NCPU) as ex:
@@ -174,7 +175,8 @@ def harness_build():
     shutil.rmtree(d, ignore_errors=True)
     os.rename(tmp, d)
     # keep only the two most recent harness builds
-    hs = sorted((x for x in os.listdir(CACHE) if x.startswith("h-") and ".tmp" not in x),
+    pref = "hs-" if hooks else "h-"
+    hs = sorted((x for x in os.listdir(CACHE) if x.startswith(pref) and ".tmp" not in x),
                 key=lambda x: os.path.getmtime(os.path.join(CACHE, x)), reverse=True)
     for old in hs[2:]:
         shutil.rmtree(os.path.join(CACHE, old), ignore_errors=True)
@@ -200,6 +202,7 @@ class Res:
         self.crash = None    # sanitizer / abort text
         self.stat = {}
         self.maxcands = 1
+        self.l2 = None       # structural tier: None / "OK n=.." / "DIFF ..."
 
 
 def parse_driver(lines, results, offset):
@@ -240,6 +243,8 @@ def parse_driver(lines, results, offset):
             if m and verdict == "OK":
                 kf = [x for x in m.group(1).split(",") if x]
             r.twin = {"prop": prop, "ok": verdict == "OK", "text": rest, "kf": kf}
+        elif what == "L2":
+            r.l2 = rest
         elif what == "LIVE":
             r.live = rest
         elif what == "BAD":
@@ -282,8 +287,11 @@ def run_scripts(exe, scripts, extra_args=()):
     return out
 
 
-def run_one(exe, script, extra_args=()):
-    return run_chunk(exe, [script], extra_args)[0]
+XARGS = ()
+
+
+def run_one(exe, script, extra_args=None):
+    return run_chunk(exe, [script], XARGS if extra_args is None else extra_args)[0]
 
 
 # ---------------------------------------------------------------------------------------------
@@ -301,6 +309,8 @@ def failure_of(prop, r):
     if prop == "C08":
         if r.live:
             return "instance count: " + r.live
+        if r.l2 and "undefined behaviour" in r.l2:
+            return "slot-level model: " + r.l2
         return None
     if spec["judge"] == "ACC":
         for a in r.acc:
@@ -331,6 +341,8 @@ def tie_break_of(prop, r):
         return "driver could not read the harness output: " + r.bad
     if r.crash and prop != "C08":
         return "harness died: " + r.crash.strip().splitlines()[-1][:200]
+    if prop == "C08" and r.l2 and r.l2.startswith("DIFF"):
+        return "private structure differs from the slot-level model: " + r.l2
     if spec["judge"] in ("L1", "TWIN") and r.l1:
         return "model and implementation disagree: " + r.l1["text"]
     return None
@@ -520,8 +532,10 @@ def main_seq(prop, tier, seed, t0):
     ok, log = lean_build()
     audit = lean_audit(spec["theorems"]) if ok else {"ok": False, "axioms": {}, "missing": spec["theorems"], "forbidden": [], "extra_axioms": {}}
     lean_ok = ok and audit["ok"]
-    # 2. harness
-    exe, hlog = harness_build()
+    # 2. harness (C08: with the friend hook, so that the private structure can be compared)
+    struct = bool(spec.get("struct"))
+    exe, hlog = harness_build(hooks=struct)
+    xargs = ("--struct",) if struct else ()
     if exe is None:
         # the headers no longer compile with the harness: the correspondence cannot be run at all
         path = write_replay(prop, seed, 0, ["# no script"], "harness does not build against the current tree:\n" + hlog[-1500:])
@@ -530,9 +544,11 @@ def main_seq(prop, tier, seed, t0):
         return 1
     # 3. scripts
     scripts, ncorpus = gen_scripts(prop, tier, seed)
-    results = run_scripts(exe, scripts)
+    results = run_scripts(exe, scripts, xargs)
     # 4. judge
     LISTED.update(check_known(prop, exe, out))
+    global XARGS
+    XARGS = xargs
     fails = []
     ties = []
     kf_seen = set()
@@ -609,6 +625,7 @@ def finish(prop, tier, seed, t0, spec, audit, scripts, results, ncorpus, violati
             "operation_histogram": op_histogram(scripts),
             "measured": tot,
             "max_reference_candidates": max([r.maxcands for r in results] or [1]),
+            "structural_tier_scripts_agreeing": len([r for r in results if r.l2 and r.l2.startswith("OK")]),
             "samples": samples or [{"note": "no scripts were run"}],
             "explanation": spec["explain"],
         },
